@@ -396,6 +396,29 @@ pub fn run() {
           case.clone(),
         );
       }
+      // the same coercion applied to the result of a function whose declared result type is the target (function values
+      // with a declared result type come from knowledge models and boxed functions; built here through the API)
+      {
+        let body_value = v.clone();
+        let body = dmntk_feel::FunctionBody::LiteralExpression(std::sync::Arc::new(Box::new(move |_: &Scope| body_value.clone())));
+        let mut c = dmntk_feel::context::FeelContext::default();
+        c.set_entry(&dmntk_feel::Name::from("f"), Value::FunctionDefinition(vec![(dmntk_feel::Name::from("p"), dmntk_feel::FeelType::Any)], body, ft.clone()));
+        let scope = Scope::from(c);
+        for (form, text) in [("positional", "f(1)"), ("named", "f(p: 1)")] {
+          if let Ok(node) = dmntk_feel_parser::parse_expression(&scope, text, false) {
+            if let Ok(via) = dmntk_feel_evaluator::evaluate(&scope, &node) {
+              coercions.fetch_add(1, Ordering::Relaxed);
+              if via.to_string() != got.to_string() && !(matches!(via, Value::Null(_)) && matches!(got, Value::Null(_))) {
+                run.violation(
+                  &format!("coercion-of-a-function-result:{}:{}:{}", form, shape(target), crate::rval::class_of_value(v)),
+                  &format!("a function with the declared result type {} whose body yields {} returns {} when invoked, but coercing that value to the type gives {}", target.text(), vt, via, got),
+                  json!({"engine":"c16","target":target.text(),"value":vt,"through":"function-result"}),
+                );
+              }
+            }
+          }
+        }
+      }
       let again = ft.coerced(&got);
       if again.to_string() != got.to_string() {
         run.violation(
